@@ -127,7 +127,7 @@ theorem key_phase {W : Nat} {bs pad : List Nat} {s : PState} {f : Frame} {rest :
       simp only [step, ne_eq, not_true_eq_false, if_false, hps]
       simp only [hne, not_false_eq_true, if_true]
 
-theorem members_step {W : Nat} {bs pad : List Nat} (ctx : Ctx W bs pad) (hnum : NumberCorrectOn bs) (fuel : Nat)
+theorem members_step {W : Nat} {bs pad : List Nat} (ctx : Ctx W bs pad) (hnum : NumberOK bs) (fuel : Nat)
     (ihV : ValueSim W bs pad fuel) (ihM : MembersSim W bs pad fuel) : MembersSim W bs pad (fuel + 1) := by
   intro s f rest p c dkvs hf hat hgood hfuel
   rw [Json.parseMembers]
@@ -169,7 +169,8 @@ theorem members_step {W : Nat} {bs pad : List Nat} (ctx : Ctx W bs pad) (hnum : 
       simp only
       have hvp := (spec_progress hnum fuel _).1 v next hv
       have hr := skipWs_ge bs (pos := next) hvp.2
-      rcases hV with ⟨k, s', node, c', ⟨cfg0, hcfg0, hreach⟩, hat', hgood', hpres, hk, hnl⟩ | ⟨hErr, hncap⟩
+      rcases hV with ⟨k, s', node, c', ⟨cfg0, hcfg0, hreach⟩, hat', hgood', hpres, hk, hnl⟩ | ⟨hErr, hncap⟩ |
+          ⟨hErr, hdoom⟩
       · have hreach1 : Reaches W (k + 1) (s, some (.objKey 0x22)) (s', some (.objCont c')) := by
           have := Reaches.step (by rw [hst, hcfg0]) hreach
           rwa [contOf_obj hf1] at this
@@ -243,6 +244,12 @@ theorem members_step {W : Nat} {bs pad : List Nat} (ctx : Ctx W bs pad) (hnum : 
               exact Or.inr ⟨hE, fun hcv => hncap (hcapv e (by omega) hcv)⟩
           · rw [if_neg hb2]
             exact hE
+      · -- a doomed number: its next byte is neither `}` nor `,`
+        obtain ⟨d, hdd, hsp, hd1, _, hd3, _⟩ := hdoom.notWs
+        rw [skipWs_fix hdd hsp, hdd]
+        rw [if_neg (by simp only [beq_iff_eq, Option.some.injEq]; exact hd3),
+          if_neg (by simp only [beq_iff_eq, Option.some.injEq]; exact hd1)]
+        exact ErrT.step hst (hErr.mono (p0 := p + 1) (by omega))
   · -- the spec rejects the key or misses the colon
     have hE : ErrT W bs (.ok (s, some (.objKey 0x22))) p :=
       ⟨1, s', ⟨_, rfl, Reaches.step hst (Reaches.refl _)⟩, hfin, by omega⟩
@@ -256,7 +263,7 @@ theorem members_step {W : Nat} {bs pad : List Nat} (ctx : Ctx W bs pad) (hnum : 
     exact MembersGoal_of_full hfull ⟨1, s', ⟨_, rfl, Reaches.step hst (Reaches.refl _)⟩, hfin, by omega⟩ _
 
 /-- **the machine follows the reference reader** (`machine_eq_descent`), for every fuel -/
-theorem sim_all {W : Nat} {bs pad : List Nat} (ctx : Ctx W bs pad) (hnum : NumberCorrectOn bs) : ∀ fuel,
+theorem sim_all {W : Nat} {bs pad : List Nat} (ctx : Ctx W bs pad) (hnum : NumberOK bs) : ∀ fuel,
     ValueSim W bs pad fuel ∧ ElemsSim W bs pad fuel ∧ MembersSim W bs pad fuel := by
   intro fuel
   induction fuel with
@@ -270,7 +277,7 @@ theorem sim_all {W : Nat} {bs pad : List Nat} (ctx : Ctx W bs pad) (hnum : Numbe
       members_step ctx hnum fuel ih.1 ih.2.2⟩
 
 /-- the name used in the design notes for `sim_all` -/
-theorem machine_eq_descent {W : Nat} {bs pad : List Nat} (ctx : Ctx W bs pad) (hnum : NumberCorrectOn bs) (fuel : Nat) :
+theorem machine_eq_descent {W : Nat} {bs pad : List Nat} (ctx : Ctx W bs pad) (hnum : NumberOK bs) (fuel : Nat) :
     ValueSim W bs pad fuel ∧ ElemsSim W bs pad fuel ∧ MembersSim W bs pad fuel := sim_all ctx hnum fuel
 
 end Sonic.Proofs.Parse
